@@ -34,6 +34,18 @@ def observe():
     return ev
 
 
+def _required_sa(chk, c, op):
+    """spec -> code: service actions the standard attaches to this operation code"""
+    need = c["sa"] if isinstance(c["sa"], dict) else {}
+    have = op.serviceaction
+    for k, v in need.items():
+        got = getattr(have, k, None) if have is not None and k in have.keys else None
+        if got != v:
+            chk.violation({"clause": "T10ServiceAction", "set": c["set"], "name": c["name"] + "." + k,
+                           "detail": {"expected": v, "observed": got}, "what": "service action of a named opcode"},
+                          dedup=("T10ServiceAction", c["set"], c["name"], k))
+
+
 def run(chk, replay=None):
     ev = chk.ev
     ev.assumptions += [
@@ -78,6 +90,18 @@ def run(chk, replay=None):
         if n != c["len"]:
             chk.violation({"clause": "GroupLen", "set": c["set"], "name": c["name"],
                            "detail": {"expected": c["len"], "observed": n}})
+        _required_sa(chk, c, op)
+    # the generic entries the facade resolves by suffix ("9E", "A3") must carry the service actions it uses
+    conv = mod("pyscsi.utils.converter")
+    for g in [v for t, v in r.prints if t == "GENERIC"]:
+        table = getattr(ec, g["set"])
+        for op in conv.get_opcode(table, g["name"][-2:]):
+            ev.case(("generic", g["set"], g["name"]))
+            if int(op.value) != g["value"]:
+                chk.violation({"clause": "GenericEntryValue", "set": g["set"], "name": g["name"],
+                               "detail": {"expected": g["value"], "observed": int(op.value)}})
+            _required_sa(chk, g, op)
+            break
     ev.replayed(listed)
     ev.sample({"spec_case": cases[0]})
     # code -> spec (one shard: SameNameSameValue is a property of the whole walk)
